@@ -111,6 +111,11 @@ func (r *Reader) getWriteForRead(key []byte, readTs uint64) (*Write, uint64, err
 	var result *Write
 	var commitTs uint64
 	if err := r.scanWrites(key, func(w Write, ts uint64) bool {
+		// Rollback markers and lock-only commits carry no data: a read looks through them
+		// to the newest put or delete below.
+		if w.Kind == pb.Mutation_Rollback || w.Kind == pb.Mutation_Lock {
+			return true
+		}
 		if ts <= readTs && (result == nil || ts > commitTs) {
 			copy := w
 			result = &copy
